@@ -92,7 +92,7 @@ C07_AtomsAt(d, p) ==
          ELSE {}
 C07_NoUnsafeResolved(t, status, data, docs, safes) ==
     status = "done" =>
-        \A p \in PathsOf(t) : (At(t, p).k = "eval" /\ At(t, p).ref # <<>>) =>
+        \A p \in PathsOf(t) : (At(t, p).k \in {"eval", "fstr"} /\ At(t, p).ref # <<>>) =>
             C07_AtomsAt(data, p) \cap C07_TaintedAtoms(docs, safes) = {}
 
 C07_EvalHolds(t, status, calls, data, docs, safes) ==
@@ -114,6 +114,7 @@ C07_XRef(p) == [SD("xref", NoVal, <<>>) EXCEPT !.form = "tag", !.ref = p]
 C07_Req == [SD("required", NoVal, <<>>) EXCEPT !.form = "tag"]
 C07_Rec(names) == [SD("rec", NoVal, [i \in 1..Len(names) |-> <<IKey(i - 1), names[i]>>]) EXCEPT !.form = "tag"]     \* !rec [names]
 C07_EvalN(key) == [SD("eval", Atom("s", key), <<>>) EXCEPT !.form = "tag", !.ref = <<SKey(key)>>]     \* !eval <key>
+C07_FStrN(key) == [SD("fstr", Atom("s", "f'{" \o key \o "}'"), <<>>) EXCEPT !.form = "tag", !.ref = <<SKey(key)>>]     \* !fstr "{key}"
 C07_Unsafe(sd) == IF sd.form = "none" THEN WithTag(sd, "unsafe") ELSE [sd EXCEPT !.safe = "F", !.form = "md"]
 
 \* what stage 1 may put at f (and data at d that f's argument may refer to)
@@ -163,7 +164,13 @@ C07_RecUse == {C07_S("vmod.r1v"), C07_Call("vmod.r1a", <<<<C07_KA, C07_XRef(<<C0
 C07_Stage1R == UNION { {SD("dict", NoVal, <<<<C07_KR, r>>, <<C07_KF, f>>>>), SD("dict", NoVal, <<<<C07_KF, f>>, <<C07_KR, r>>>>),
                         C07_Unsafe(SD("dict", NoVal, <<<<C07_KR, r>>, <<C07_KF, f>>>>))}
                       : r \in C07_RecNodes, f \in C07_RecUse }
-C07_Stage1 == C07_Stage1B \cup C07_Stage1C \cup C07_Stage1R \cup UNION { {SD("dict", NoVal, <<<<C07_KF, f>>, <<C07_KD, d>>>>),
+\* f-strings `{d}` over scalar data (the text of a container is not modelled), d before and after its consumer
+C07_Stage1F == UNION { {SD("dict", NoVal, <<<<C07_KD, d>>, <<C07_KF, f>>>>), SD("dict", NoVal, <<<<C07_KF, f>>, <<C07_KD, d>>>>),
+                        SD("dict", NoVal, <<<<C07_KD, d>>, <<C07_KF, IF f.k = "fstr" THEN f ELSE C07_Unsafe(f)>>>>),     \* (!fstr takes no metadata)
+                        C07_Unsafe(SD("dict", NoVal, <<<<C07_KD, d>>, <<C07_KF, f>>>>))}
+                      : f \in {C07_FStrN("d"), C07_Call("vmod.r1a", <<<<C07_KA, C07_FStrN("d")>>>>)},
+                        d \in {C07_S("vmod.r1x"), C07_Unsafe(C07_S("vmod.r1y"))} }
+C07_Stage1 == C07_Stage1B \cup C07_Stage1C \cup C07_Stage1R \cup C07_Stage1F \cup UNION { {SD("dict", NoVal, <<<<C07_KF, f>>, <<C07_KD, d>>>>),
                        SD("dict", NoVal, <<<<C07_KF, IF f.k = "import" THEN f ELSE C07_Unsafe(f)>>, <<C07_KD, d>>>>),
                        C07_Unsafe(SD("dict", NoVal, <<<<C07_KF, f>>, <<C07_KD, d>>>>))}
                     : f \in C07_F1, d \in C07_D1 }
